@@ -209,17 +209,18 @@ func (c *cluster) handleChanges(key string, kvs []KV) {
 	}
 	c.lock.Unlock()
 
+	// 先处理移除，再处理新增：断连期间同一个键换了值时，会同时产生“移除旧值”和“新增新值”两条通知，
+	// 而监听器按键删除；若先增后删，删掉的是新值，留下的是已失效的旧值。
+	for _, kv := range remove {
+		for _, l := range listeners {
+			l.OnDelete(kv)
+		}
+	}
+
 	// 处理新增
 	for _, kv := range add {
 		for _, l := range listeners {
 			l.OnAdd(kv)
-		}
-	}
-
-	// 处理移除
-	for _, kv := range remove {
-		for _, l := range listeners {
-			l.OnDelete(kv)
 		}
 	}
 }
